@@ -1644,3 +1644,31 @@ func (g *Graph) EvalUnder(e ast.Expr, v Val) int {
 	}
 	return 0
 }
+
+// BoolResultUnder evaluates a function with a single boolean result under an assumption about non-tracked atoms:
+// canTrue / canFalse tell which results some feasible path can return (an undecided result counts as both).
+func (g *Graph) BoolResultUnder(assumed func(Fact) bool) (canTrue, canFalse bool) {
+	vals := g.ReachVals(Query{FromEntry: true, Assume: assumed, AvoidEdge: g.Infeasible(assumed)})
+	g.assumedFn = assumed
+	defer func() { g.assumedFn = nil }()
+	for n, vs := range vals {
+		ret, ok := n.Node.(*ast.ReturnStmt)
+		if !ok {
+			continue
+		}
+		if len(ret.Results) != 1 {
+			return true, true
+		}
+		for v := range vs {
+			switch g.eval(ret.Results[0], v) {
+			case tvT:
+				canTrue = true
+			case tvF:
+				canFalse = true
+			default:
+				canTrue, canFalse = true, true
+			}
+		}
+	}
+	return
+}
